@@ -108,8 +108,14 @@ class MutexOption(click.Option):
 def spdx_identifier(text: str) -> Expression:
     """Factory for creating SPDX expressions."""
     try:
-        return _LICENSING.parse(text)
+        expression = _LICENSING.parse(text)
     except (ExpressionError, ParseError) as error:
         raise click.UsageError(
             _("'{}' is not a valid SPDX expression.").format(text)
         ) from error
+    # Nothing, or nothing but blanks, is not an expression either.
+    if expression is None:
+        raise click.UsageError(
+            _("'{}' is not a valid SPDX expression.").format(text)
+        )
+    return expression
